@@ -58,9 +58,9 @@ impl Check for C19 {
     }
     fn n_runs(&self, thorough: bool) -> u64 {
         if thorough {
-            40_000
+            1_300_000
         } else {
-            1_500
+            24_000
         }
     }
     fn gen_plan(&self, seed: u64, _idx: u64, _t: bool) -> Value {
